@@ -445,6 +445,10 @@ func (p *parser) parseForExpression() ast.Expression {
 		return nil
 	}
 
+	// break/continue are valid from here to the end of this loop; afterwards
+	// whatever held for the enclosing construct holds again
+	defer func(outer bool) { p.inForBlock = outer }(p.inForBlock)
+
 	ln := p.curToken.LineNumber
 	p.inForBlock = true
 	s := []string{}
@@ -492,8 +496,6 @@ func (p *parser) parseForExpression() ast.Expression {
 	}
 
 	expression.Block = p.parseBlockStatement()
-
-	p.inForBlock = false
 
 	return expression
 }
@@ -601,6 +603,9 @@ func (p *parser) parseFunctionLiteral() ast.Expression {
 	}
 
 	lit.Parameters = p.parseFunctionParameters()
+
+	// a function body is not part of the loop the function is defined in
+	defer func(outer bool) { p.inForBlock = outer }(p.inForBlock)
 	p.inForBlock = false
 
 	if !p.expectPeek(token.LBRACE) {
